@@ -12,11 +12,11 @@ OUTSIDE = ["statements whose ';' is not at a line end", "scripts using \"input.r
 def obligations(tier):
     t = 240 if tier == "quick" else 900
     obs = [Ob("C03.split/2lines", "pre", "c_split2", {}, t, FN_PRE,
-              "two complete one-line statements, each any of 23 catalogued lines (7 supported, 13 unsupported/skipped/blank incl. an unbalanced parenthesis inside a literal, 3 SET) by symbolic index: result = concatenation of the results alone")]
+              "two complete one-line statements, each any of 27 catalogued lines (7 supported, 13 unsupported/skipped/blank incl. an unbalanced parenthesis inside a literal, 3 SET, 4 further: TRUNCATE / MERGE and two skipped statements without a terminating ';') by symbolic index: result = concatenation of the results alone")]
     firsts = [0, 2, 7, 10, 14, 20] if tier == "quick" else list(range(23))
     for k in firsts:
         obs.append(Ob(f"C03.split/3lines/first={k}", "pre", "c_split3", {"VF_K1": k}, t, FN_PRE,
-                      f"three lines: first = catalogue line #{k}, second and third any of the 23 (symbolic)"))
+                      f"three lines: first = catalogue line #{k}, second and third any of the 27 (symbolic)"))
     obs += lex_obs("C03", "c_case", ["option_pos", "after_columns", "stmt_start", "col_later"], tier, "tables-intact")
     obs.append(Ob("C03.fresh/accumulators", "c06", "c_fresh", {}, t, ["simple_ddl_parser/dialects/sql.py:p_t_name, p_domain_name/p_expression_domain_as, p_type_name/p_type_definition, p_seq_name"],
                   "two statements never share a mutable accumulator: two calls of each skeleton-building action return dicts without a common list / dict"))
